@@ -41,6 +41,11 @@ def units(tier, seed):
         if names["A"] == "perm":
             continue
         out.append(dict(names=names, spec=B.spec_of(A, lb, ub, K, bl), tier=tier))
+    # two sources with similar capture profiles (smallest singular value ~ 0.02, still captures >= 1 with bounds [0, 10]):
+    # uniquely determined but sensitive fits
+    An = np.array([[0.5, 0.52], [0.625, 0.6], [0.375, 0.41]])
+    out.append(dict(names=dict(shape="3x2", A="near-collinear", bounds="0..10", K="default", baseline="default"), spec=B.spec_of(An, np.zeros(2), np.full(2, 10.0), None, None), tier=tier))
+    out.append(dict(names=dict(shape="3x2", A="near-collinear", bounds="0..10", K="vector", baseline="vector"), spec=B.spec_of(An, np.zeros(2), np.full(2, 10.0), np.array([1.0, 0.75, 1.25]), np.array([0.25, 0.5, 0.125])), tier=tier))
     return out
 
 
@@ -109,6 +114,17 @@ def answers(est, T, under, inside=(), c=1.0):
     return out
 
 
+def answers_L1(est, Tin, c, s, L1_base):
+    """variance minimisation with a requested total intensity (given in the twin's intensity unit, tolerances in the twin's units)"""
+    with warnings.catch_warnings():
+        warnings.simplefilter("ignore")
+        try:
+            X, Bp, _ = est.minimize_variance(Tin, L1=L1_base / s, l2_eps=1e-4 * c, l1_eps=1e-2 / s, solver="CLARABEL")
+            return (np.asarray(X, dtype=float), np.asarray(Bp, dtype=float))
+        except Exception as e:  # noqa
+            return e
+
+
 def run_unit(unit, rec):
     spec, names = unit["spec"], unit["names"]
     Abar, c0, lo, hi = B.model_of(spec)
@@ -144,6 +160,27 @@ def run_unit(unit, rec):
     base = answers(base_est, T, under, inside_idx, 1.0)
     smin = np.linalg.svd(Abar, compute_uv=False)[min(m, n) - 1]
     unique = n <= m
+    L1_base = None
+    if "min-variance" in base and not isinstance(base["min-variance"], Exception):
+        # requested totals above those of the unconstrained minimum-variance solutions (the lower edge of the band is the active one)
+        tot_mv = np.sum(base["min-variance"][0], axis=1)
+        tmax = []
+        for i_ in inside_idx:
+            V_ = O.poly_vertices(Abar, T[i_] - c0, lo, hi_f)
+            tmax.append(float(V_.sum(1).max()) if len(V_) else -np.inf)
+        tmax = np.array(tmax)
+        if len(tmax) and np.all(tmax >= tot_mv + 0.1):
+            # admissible: between the minimum-variance total and the largest total any reproducing intensity vector has
+            L1_base = tot_mv + 0.5 * (tmax - tot_mv)
+            base["min-variance-L1"] = answers_L1(base_est, T[inside_idx], 1.0, 1.0, L1_base)
+    if unique:
+        with warnings.catch_warnings():
+            warnings.simplefilter("ignore")
+            try:
+                Xa, Ba = base_est.fit(T, solver="CLARABEL")
+                base["fit-accurate"] = (np.asarray(Xa, dtype=float), np.asarray(Ba, dtype=float))
+            except Exception as e:  # noqa
+                base["fit-accurate"] = e
     for s, c in itertools.product(GRID, GRID):
         in_regime = bool(np.all(hi_f / s <= 10) and np.all(lo[lo > 0] / s >= 0.05) and np.all((hi_f - lo) / s >= 0.05) and 1.0 <= ext * c <= 100.0 and np.max(np.abs(T)) * c <= 100.0 and 1.0 <= ext <= 100.0)
         reg = "asserted" if in_regime else "stress"
@@ -157,6 +194,16 @@ def run_unit(unit, rec):
                 _v(rec, "a", dict(query="build", regime=reg, **exc_sig(e)), "building the rescaled twin raised %r" % (e,), dict(s=s, c=c))
             rec.outcome("%s/build-exception" % reg)
             continue
+        if L1_base is not None:
+            got["min-variance-L1"] = answers_L1(tw, (T * c)[inside_idx], c, s, L1_base)
+        if unique:
+            with warnings.catch_warnings():
+                warnings.simplefilter("ignore")
+                try:
+                    Xa, Ba = tw.fit(T * c, solver="CLARABEL")
+                    got["fit-accurate"] = (np.asarray(Xa, dtype=float), np.asarray(Ba, dtype=float))
+                except Exception as e:  # noqa
+                    got["fit-accurate"] = e
         if in_regime:
             rec.distinct((spec, s, c))
         for q in base:
@@ -190,6 +237,29 @@ def run_unit(unit, rec):
                 dev = d / float(np.max(hi_f - lo))
                 if d > 1e-7 * np.max(hi_f - lo):
                     bad = ("b", "requested spaced solutions of the twin are not the base solutions divided by s (s=%g, c=%g, max dev %.3g)" % (s, c, d))
+            elif q == "fit-accurate":
+                Xb, Pb = b0
+                Xt, Pt = g
+                # (flat gamuts, fewer sources than receptors: the first targets are images of interior intensity vectors)
+                ins = np.flatnonzero(mg >= 1e-3 * ext) if mg is not None else np.arange(min(4, len(T)))
+                if len(ins) == 0:
+                    continue
+                # in-gamut targets: the fit reproduces them, the intensities are determined to the solver's (interior-point) accuracy
+                dX = float(np.max(np.abs(Xt[ins] * s - Xb[ins])))
+                dP = float(np.max(np.abs(Pt[ins] / c - Pb[ins])))
+                dev = dX / float(np.max(hi_f - lo))
+                rec.stat_max("fit_accurate_dX_rel", dev if in_regime else 0.0)
+                # interior-point accuracy: the uniquely determined intensities of the twins agree to 1e-5 of the bound range (measured: <= 1e-7)
+                if dX > 1e-5 * np.max(hi_f - lo) or dP > 1e-5 * ext:
+                    bad = ("c", "accurate fit: uniquely determined intensities / predictions of the twin are not the base ones divided by s / times c (s=%g, c=%g, dX %.3g, dP %.3g)" % (s, c, dX, dP))
+            elif q == "min-variance-L1":
+                Xb, Pb = b0
+                Xt, Pt = g
+                dX = float(np.max(np.abs(Xt * s - Xb)))
+                dev = dX / float(np.max(hi_f - lo))
+                rec.stat_max("minvar_L1_total_dev", float(np.max(np.abs(np.sum(Xt * s, axis=1) - np.sum(Xb, axis=1)))) if in_regime else 0.0)
+                if float(np.max(np.abs(np.sum(Xt * s, axis=1) - np.sum(Xb, axis=1)))) > 1e-3:
+                    bad = ("c", "variance minimisation with a requested total: the totals of the twin are not the base totals divided by s (s=%g, c=%g)" % (s, c))
             elif q in ("underdetermined", "min-variance"):
                 Xb, Pb = b0
                 Xt, Pt = g
